@@ -11,7 +11,8 @@ TECHNIQUE = "bounded-exhaustive enumeration of operator expression trees x vecto
 LEVEL_TEXT = (
     "Every expression tree up to the stated depth over {P, .T, .H, .conjugate(), products/sums/scalings with "
     "dense, sparse and LinearOperator operands, adjoint/transpose of composites} is applied from both sides to "
-    "every operand shape for every class of vector set (real/complex, L=R / biorthogonal, rank 1..2) and compared "
+    "every operand shape for every class of vector set (real/complex/mixed, L=R orthonormal, biorthogonal, L within 1e-7 of R, "
+    "unnormalised and unrelated sets with L†R != 1, rank 1..2), including self-compositions P@P, P.dot(P), P**2, P@P.H, and compared "
     "with the same expression on the dense matrix 1 - R L†."
 )
 LEVEL_NOTE = "Trusted: numpy dense linear algebra as the reference model; scipy's LinearOperator composition rules are part of the system under test."
